@@ -294,3 +294,9 @@ def rename_interps(t, byname):
                 continue
         memo[nd] = nd if all(a is b for a, b in zip(nk, kids)) else tm.rebuild(nd, nk)
     return memo[t]
+
+
+def bounded(ctx):
+    """pandas containers (label alignment) are outside the array model of the executor: bounded family 'container independence'"""
+    from ..rt import containers
+    return containers.run(['from_table'])
